@@ -1030,7 +1030,9 @@ class ChainableUndefined(Undefined):
     __slots__ = ()
 
     def __html__(self) -> str:
-        return str(self)
+        # The text of a subclass (a debug message naming the missing
+        # key, for example) is data, not markup.
+        return str(escape(str(self)))
 
     def __getattr__(self, name: str) -> "ChainableUndefined":
         # Raise AttributeError on requests for names that appear to be unimplemented
